@@ -129,6 +129,7 @@ type openOpts struct {
 	fl           string
 	nfs, ngs, ro bool
 	nosync       bool
+	pre, strict  bool
 }
 
 func (o openOpts) String() string {
@@ -138,7 +139,14 @@ func (o openOpts) String() string {
 		}
 		return 0
 	}
-	return fmt.Sprintf("ps=%d fl=%s nfs=%d ngs=%d imm=%d ro=%d max=%d", o.ps, o.fl, b(o.nfs), b(o.ngs), o.imm, b(o.ro), o.max)
+	s := fmt.Sprintf("ps=%d fl=%s nfs=%d ngs=%d imm=%d ro=%d max=%d", o.ps, o.fl, b(o.nfs), b(o.ngs), o.imm, b(o.ro), o.max)
+	if o.pre {
+		s += " pre=1"
+	}
+	if o.strict {
+		s += " strict=1"
+	}
+	return s
 }
 
 func parseOpen(fields []string) openOpts {
@@ -164,6 +172,10 @@ func parseOpen(fields []string) openOpts {
 			o.ro = n != 0
 		case "max":
 			o.max = n
+		case "pre":
+			o.pre = n != 0
+		case "strict":
+			o.strict = n != 0
 		}
 	}
 	return o
@@ -175,7 +187,7 @@ func (o openOpts) boltOptions() *bolt.Options {
 		ft = bolt.FreelistMapType
 	}
 	return &bolt.Options{PageSize: o.ps, FreelistType: ft, NoFreelistSync: o.nfs, NoGrowSync: o.ngs,
-		InitialMmapSize: o.imm, ReadOnly: o.ro, MaxSize: o.max, Timeout: 2 * time.Second}
+		InitialMmapSize: o.imm, ReadOnly: o.ro, MaxSize: o.max, Timeout: 2 * time.Second, PreLoadFreelist: o.pre}
 }
 
 type runner struct {
@@ -305,6 +317,7 @@ func (r *runner) exec(line string) (cont bool) {
 			return true
 		}
 		r.db = db
+		db.StrictMode = r.opts.strict
 		r.ps = db.Info().PageSize
 		r.res("ok")
 		r.info("open")
@@ -548,7 +561,9 @@ func (r *runner) info(what string) {
 		if pj == "" {
 			pj = "-"
 		}
-		line += fmt.Sprintf(" flfree=%s flpend=%s", csv(fr), pj)
+		line += fmt.Sprintf(" flloaded=1 flfree=%s flpend=%s", csv(fr), pj)
+	} else {
+		line += " flloaded=0"
 	}
 	fmt.Fprintln(r.w, line)
 }
